@@ -470,13 +470,13 @@ class Module(ABC):
 
         nodes = self._reformat_index(nodes) if nodes is not None else None
         nodes = self._nodes_in_view if is_str_all(nodes) else nodes
-        nodes = np.sort(nodes) if sorted else nodes
+        nodes = np.sort(nodes) if sorted and nodes is not None else nodes
 
         if isinstance(edges, slice):
             edges = np.arange(len(self.base.edges))[edges]
         edges = self._reformat_index(edges) if edges is not None else None
         edges = self._edges_in_view if is_str_all(edges) else edges
-        edges = np.sort(edges) if sorted else edges
+        edges = np.sort(edges) if sorted and edges is not None else edges
 
         view = View(self, nodes, edges)
         view._set_controlled_by_param("filter")
